@@ -19,7 +19,9 @@
       3  flush of an empty memtable removed such a segment without consulting
          the raft pointers
       4  after a removal of a segment holding records of a group, the group's
-         storage cannot be reopened or misses persisted state. *)
+         storage cannot be reopened or misses persisted state
+      5  a flushed segment retained for raft is replayed on reopen and its old
+         LSM writes shadow newer values that are already in tables. *)
 From Coq Require Export List NArith Bool String.
 From NoKV Require Export Model.RaftStore Spec.RaftStoreSpec Model.WalGc Spec.WalGcSpec Corr.Common.
 Export ListNotations.
@@ -96,6 +98,12 @@ Definition groups_in (s : st) (ids : list N) : list N :=
     | None => []
     end) ids.
 
+(** a segment at or below the log pointer (already flushed) survives the
+    recovery cleanup and still holds LSM writes: it is replayed into a memtable *)
+Definition stale_replay (s : st) : bool :=
+  existsb (fun sg => (fst sg <=? s_logptr s) && match lsm_of (snd sg) with [] => false | _ => true end)
+          (recovery_cleanup s).
+
 (** the image DB runs lsm.recovery first: its removals are observed through
     the files present afterwards (it may also have created a new segment) *)
 Definition eval_probe (a : acc) (s : st) (ops : list wop) (p : probe) : bool * list N :=
@@ -107,7 +115,7 @@ Definition eval_probe (a : acc) (s : st) (ops : list wop) (p : probe) : bool * l
   let mis_raft := negb (forallb (fun gr => robs_eqb (snd gr) (recovered_raft s (fst gr))) (pr_raft p)) in
   let vio_kv :=
     if forallb (fun kv => optN_eqb (snd kv) (expect_get ops (fst kv) None)) (pr_kvs p) then []
-    else [if k_wd_lsm a then 2 else 0] in
+    else [if k_wd_lsm a then 2 else if stale_replay s then 5 else 0] in
   let vio_raft :=
     flat_map (fun gr =>
       if raft_recovered_ok_b (fst gr) ops (snd gr) then []
